@@ -405,9 +405,10 @@ def _decode_parsed(
     decoded: dict[str, str | int | float | datetime] = {}
 
     for item in parsed:
-        if len(item.values) == 1:
-            obis = Obis.from_string(item.address)
+        # Every data set is addressed by an OBIS code (raises ValueError if not), also those not decoded below.
+        obis = Obis.from_string(item.address)
 
+        if len(item.values) == 1:
             obis_group_cdr = obis.to_group_cdr_str()
             if obis_group_cdr in obis_map.obis_name_map:
                 element_name = obis_map.obis_name_map[obis_group_cdr]
